@@ -8,6 +8,13 @@ spec -> code: every arrangement (query schema x entry schema x data variant) TLC
               Tabular.tla is replayed on Dense (row and column constructed) and Frame, and through extract.Slicer
 code -> spec: seeded random requests beyond the constants (<= 5 query fields, <= 7 entry columns, 5 kinds, random values and
               containers) are served by the real code and the recorded outcomes validated by specs/TraceEntry.tla
+sessions:     the reader is one long-lived object answering request after request: specs/EntrySession.tla generates every
+              session (one query, several requests in a row - any entry again, or the same columns re-sent in every other
+              arrangement) and each is replayed on ONE real reader of its own; every answer must be the one Entry!Aligned
+              allows for that request alone (ArrangementFree / PastAligned), whatever was served before
+index lists:  an index list is a Sequence[int] - what it holds, not what spells it: specs/TakeIndex.tla also generates the
+              arithmetic progressions range(start, stop, step) (either sign, bounds anywhere) with the list they denote; every
+              selection is made with the list, the tuple and the range; Tabular.tla states rotate through the three forms
 payload:      a served payload is any layout.Tabular, fully described by its cells (specs/EntrySelect.tla): every arrangement is
               also served after every row selection made by the real take_rows (SelectionCommutes), and as a Frame whose rows
               carry labels of their own (named / reversed / repeated - what a decoded request or a selection leaves behind)
@@ -142,9 +149,9 @@ def check_roundtrip(vectors):
 _READER = {}
 
 
-def reader():
-    """A concrete Reader: parser/read are never reached when an entry is supplied."""
-    if 'r' not in _READER:
+def new_reader():
+    """A concrete Reader of its own: parser/read are never reached when an entry is supplied."""
+    if 'cls' not in _READER:
         from forml.io._input import _producer
 
         class EntryOnly(_producer.Reader):
@@ -156,7 +163,14 @@ def reader():
             def read(cls, statement, **kwargs):
                 raise AssertionError('extraction mode must not be entered')
 
-        _READER['r'] = EntryOnly({}, {})
+        _READER['cls'] = EntryOnly
+    return _READER['cls']({}, {})
+
+
+def reader():
+    """The reader shared by all single requests of a run."""
+    if 'r' not in _READER:
+        _READER['r'] = new_reader()
     return _READER['r']
 
 
@@ -198,9 +212,11 @@ def cells(major):
     return [[project(cell) for cell in line] for line in major]
 
 
-def serve(q, e, d, route, container, flavour, sel=None):
+def serve(q, e, d, route, container, flavour, sel=None, rd=None):
     """Run one arrangement through the real code; -> {'res': ok|refused|illformed|crash, 'rows': [[den...]], 'why': str}.
-    With sel (1-based index list) the payload served is the selection take_rows(sel) of the table holding d."""
+    With sel (1-based index list) the payload served is the selection take_rows(sel) of the table holding d; rd = the reader
+    asked (default: the one shared by all single requests)."""
+    rd = rd or reader()
     import forml
     from forml.io import dsl, layout
     from forml.io._input import extract
@@ -213,14 +229,14 @@ def serve(q, e, d, route, container, flavour, sel=None):
         if sel is not None:
             entry = layout.Entry(entry.schema, entry.data.take_rows([i - 1 for i in sel]))
         if route == 'reader':
-            table = reader()(stmt, entry)
+            table = rd(stmt, entry)
             rows = cells(table.to_rows())
         elif route == 'tabledriver':
-            table = extract.TableDriver(reader(), extract.Statement.prepare(stmt, None)).apply(entry)
+            table = extract.TableDriver(rd, extract.Statement.prepare(stmt, None)).apply(entry)
             rows = cells(table.to_rows())
         else:
             table = None
-            rows = cells(extract.RowDriver(reader(), extract.Statement.prepare(stmt, None)).apply(entry))
+            rows = cells(extract.RowDriver(rd, extract.Statement.prepare(stmt, None)).apply(entry))
         if table is not None:  # the column view of what is delivered must be the same matrix
             cols = cells(table.to_columns())
             if rows and [list(r) for r in zip(*cols)] != rows or (not rows and any(cols)):
@@ -234,6 +250,12 @@ def serve(q, e, d, route, container, flavour, sel=None):
 
 def plain(out):
     return {'res': out['res'], 'rows': out['rows']}
+
+
+def serve_session(q, reqs, plans, flavour):
+    """One reader of its own answers the requests [(e, d)...] of a session one after the other, each over its (route, payload)."""
+    rd = new_reader()
+    return [serve(q, e, d, route, container, flavour, rd=rd) for (e, d), (route, container) in zip(reqs, plans)]
 
 
 _JOBS = {}
@@ -320,43 +342,61 @@ def vectors_of(res):
 
 
 # ------------------------------------------------------------------------------------------------------------- main
+def sequence_forms(rec):
+    """Every python Sequence[int] denoting the exported index list: the spelled-out ones and, for a progression, the range."""
+    forms = [('list', list(rec['ix'])), ('tuple', tuple(rec['ix']))]
+    if rec['form'] == 'range':
+        prog = range(rec['start'], rec['stop'], rec['step'])
+        if list(prog) != list(rec['ix']):  # binding: RangeSeq of TakeIndex.tla is python's range
+            raise tlc.MachineryError(f'TakeIndex.tla: range({rec["start"]}, {rec["stop"]}, {rec["step"]}) exported as {rec["ix"]}')
+        forms = [('range', prog), forms[len(rec['ix']) % 2]]
+    return forms
+
+
 def take_index_domain(chk):
     """TakeIndex.tla replayed on Dense (built from rows and from columns) and Frame: every index list over the whole integer
-    neighbourhood of the valid range - negative indices count from the end, anything out of range is refused."""
+    neighbourhood of the valid range - negative indices count from the end, anything out of range is refused - handed over
+    in every Sequence[int] form denoting it (list, tuple, range for the arithmetic progressions)."""
     import pandas
     from forml.io import layout
     res = chk.tlc('TakeIndex', 'TakeIndex.cfg', workers=1, coverage=False)
     recs = res.json_prints()
-    if len(recs) < 50:
+    if len(recs) < 50 or sum(r['form'] == 'range' and len(r['ix']) >= 2 for r in recs) < 50:
         raise tlc.MachineryError(f'TakeIndex.tla exported {len(recs)} index lists')
     n, m = 3, 2
     rows = [[10 * r + c for c in range(m)] for r in range(n)]
-    tables = {'dense-from-rows': lambda: layout.Dense.from_rows(rows),
-              'dense-from-columns': lambda: layout.Dense.from_columns([list(c) for c in zip(*rows)]),
-              'frame': lambda: layout.Frame(pandas.DataFrame(rows, columns=['k0', 'k1'])),
-              'frame-with-row-labels': lambda: layout.Frame(pandas.DataFrame(rows, columns=['k0', 'k1'], index=[2, 0, 1]))}
+    tables = {'dense-from-rows': layout.Dense.from_rows(rows),
+              'dense-from-columns': layout.Dense.from_columns([list(c) for c in zip(*rows)]),
+              'frame': layout.Frame(pandas.DataFrame(rows, columns=['k0', 'k1'])),
+              'frame-with-row-labels': layout.Frame(pandas.DataFrame(rows, columns=['k0', 'k1'], index=[2, 0, 1]))}
     ok = 0
+    byform = {}
     for rec in recs:
-        for name, make in tables.items():
+        for name, table in tables.items():
             for axis, want in (('rows', rec['rows']), ('columns', rec['cols'])):
-                if any(abs(i) > (n if axis == 'rows' else m) for i in rec['ix']) and axis == 'columns' and False:
-                    continue
-                try:
-                    taken = getattr(make(), f'take_{axis}')(list(rec['ix']))
-                    got = {'ok': True, 'rows': [[int(v) for v in r] for r in taken.to_rows()]}
-                    if axis == 'columns' and not rec['ix']:
-                        got['rows'] = want['rows']
-                except (IndexError, KeyError):
-                    got = {'ok': False, 'rows': []}
-                except Exception as exc:  # pylint: disable=broad-except
-                    got = {'ok': f'{type(exc).__name__}', 'rows': []}
-                if got != want:
-                    chk.fail(f'C15 {name}.take_{axis}({rec["ix"]}) on a {n}x{m} table: {got}, plain matrix semantics: {want}',
-                             {'kind': 'takeindex', 'table': name, 'axis': axis, 'ix': rec['ix']})
-                else:
-                    ok += 1
+                for form, seq in sequence_forms(rec):
+                    try:
+                        taken = getattr(table, f'take_{axis}')(seq)
+                        got = {'ok': True, 'rows': [[int(v) for v in r] for r in taken.to_rows()]}
+                        if axis == 'columns' and not rec['ix']:
+                            got['rows'] = want['rows']
+                    except (IndexError, KeyError):
+                        got = {'ok': False, 'rows': []}
+                    except Exception as exc:  # pylint: disable=broad-except
+                        got = {'ok': f'{type(exc).__name__}', 'rows': []}
+                    if got != want:
+                        chk.fail(f'C15 {name}.take_{axis}({seq!r}) on a {n}x{m} table: {got}, plain matrix semantics: {want}',
+                                 {'kind': 'takeindex', 'table': name, 'axis': axis, 'ix': rec['ix'], 'form': form,
+                                  'range': [rec['start'], rec['stop'], rec['step']], 'want': want})
+                    else:
+                        ok += 1
+                        byform[form] = byform.get(form, 0) + 1
+    # binding self-test: the comparison tells a progression from the contiguous block between its bounds
+    # (synthetic observation: the block is computed here, not taken from the code under test)
+    rec = next(r for r in recs if r['form'] == 'range' and r['step'] == 2 and len(r['ix']) == 2 and 0 <= r['start'] and r['stop'] <= n)
+    chk.selftest('stepped_progression_told_from_block', [rows[i] for i in range(rec['start'], rec['stop'])] != rec['rows']['rows'])
     chk.validated(ok)
-    chk.extra['take_index_domain'] = {'index_lists': len(recs), 'conforming_selections': ok}
+    chk.extra['take_index_domain'] = {'index_lists': len(recs), 'conforming_selections': ok, 'by_sequence_form': byform}
 
 
 def main(chk):
@@ -368,6 +408,7 @@ def main(chk):
 
     model_level(chk, tmp)
     replay_vectors(chk, tmp)
+    sessions(chk, tmp)
     random_observations(chk, rnd)
     tabular(chk, tmp)
 
@@ -497,6 +538,84 @@ def replay_vectors(chk, tmp):
     chk.extra['entry_payload_selections'] = selected
     chk.extra['entry_outcomes'] = stats
     chk.extra.setdefault('impl_model_drift', {})['conforming_outcomes_not_predicted_by_asis_model'] = drift
+
+
+SESSION = STRUCTURAL + ['ValuesCast', 'ArrangementFree', 'PastAligned', 'ExportSess']
+
+
+def sessions(chk, tmp):
+    """spec -> code: every session of EntrySession.tla (one query, several requests in a row) answered by ONE real reader of
+    its own - what a request gets must not depend on what the reader served before."""
+    # (kinds, names, query fields, entry columns, rows, requests per session, follow-ups also arranged from scratch)
+    runs = [(('int', 'str'), 3, 2, 2, 1, 2, True), (('int', 'str'), 3, 2, 3, 1, 2, False)]
+    if not chk.quick:
+        runs = [(('int', 'str'), 3, 2, 3, 1, 2, True), (NUMERIC, 3, 2, 3, 2, 2, False), (('flt', 'str'), 2, 2, 2, 1, 3, True)]
+    total = requests = rearranged = 0
+    tested = False
+    for kinds, pool, mq, me, nrows, nreq, free in runs:
+        cfg = cfg_entry(os.path.join(tmp, f'session-{kinds[0]}-{pool}{mq}{me}-{nreq}-{int(free)}.cfg'), 'SessSpec', kinds, pool, mq, me,
+                        nrows, 1, False, 'aligned', True, SESSION)
+        with open(cfg, 'a') as fh:
+            fh.write(f'CONSTANTS MaxReq = {nreq}\n FreeFollowUp = {"TRUE" if free else "FALSE"}\n')
+        res = chk.tlc('EntrySession', cfg, require=['ArrangeS', 'ServeS', 'AnyResend'] + (['Another'] if free else []), workers=4,
+                      timeout=2400)
+        found = {}
+        for rec in res.json_prints():
+            found[json.dumps(rec, sort_keys=True)] = rec
+        sess = [found[k] for k in sorted(found)]
+        queries = sum(len(kinds) ** n for n in range(1, mq + 1))
+        entries = sum(math.perm(pool, n) * len(kinds) ** n for n in range(1, me + 1))
+        if len(sess) < queries * entries * (entries ** (nreq - 1) if free else 1) or any(len(x['reqs']) != nreq for x in sess):
+            raise tlc.MachineryError(f'EntrySession.tla exported {len(sess)} sessions of {queries} queries x {entries} entries')
+        for x in sess:
+            x['q'] = [tuple(f) for f in x['q']]
+            for req in x['reqs']:
+                req['e'] = [tuple(f) for f in req['e']]
+        check_roundtrip([req for x in sess for req in x['reqs']])
+        plans = [([(ROUTES[(n + 2 * k) % 3], PAYLOADS[(n // 3 + n // 7 + 5 * k) % len(PAYLOADS)]) for k in range(nreq)], n // 5)
+                 for n in range(len(sess))]
+        jobs = [(x['q'], [(r['e'], r['d']) for r in x['reqs']], plan, flavour) for x, (plan, flavour) in zip(sess, plans)]
+        for n, (x, (plan, flavour), outs) in enumerate(zip(sess, plans, pmap('serve_session', jobs))):
+            total += 1
+            good = True
+            for k, (req, got) in enumerate(zip(x['reqs'], outs)):
+                requests += 1
+                if plain(got) in req['allowed']:
+                    continue
+                good = False
+                before = '; '.join(f'({", ".join(f"c{nm}:{kd}" for nm, kd in r["e"])})' for r in x['reqs'][:k]) or 'nothing'
+                what = (f'[{plan[k][0]}/{plan[k][1]}] request {k + 1} of a session (the reader served {before} before) '
+                        + describe(x['q'], req['e'], req['d'], got, req['allowed']))
+                chk.fail(what, {'kind': 'session', 'q': x['q'], 'reqs': [{'e': r['e'], 'd': r['d'], 'allowed': r['allowed']}
+                                                                          for r in x['reqs']],
+                                'plan': plan, 'flavour': flavour, 'failing_request': k, 'observed': got},
+                         finding=FINDING if req['inclass'] and plain(got) == req['asis'] else None)
+            if good:
+                chk.validated()
+                rearranged += any(sorted(a['e']) == sorted(b['e']) and a['e'] != b['e'] for a, b in zip(x['reqs'], x['reqs'][1:]))
+                if n % 1999 == 7:
+                    chk.sample({'query': x['q'], 'session': [{'entry': r['e'], 'rows': [[concrete(v) for v in row] for row in r['d']]}
+                                                             for r in x['reqs']],
+                                'delivered': [g['res'] if g['res'] != 'ok' else g['rows'] for g in outs]})
+        if not tested:
+            # binding self-test (synthetic observation): the second request holds the columns of the first in another order;
+            # its values delivered at the positions that were right for the FIRST request must not be among the allowed outcomes
+            for x in sess:
+                one, two = x['reqs'][0], x['reqs'][1]
+                kind = dict(x['q'])
+                if (sorted(one['e']) == sorted(two['e']) and one['e'] != two['e'] and len(two['allowed']) == 1
+                        and two['allowed'][0]['res'] == 'ok' and all(kind.get(nm, kd) == kd for nm, kd in two['e'])
+                        and {nm for nm, _ in x['q']} <= {nm for nm, _ in one['e']}):
+                    pos = [[nm for nm, _ in one['e']].index(nm) for nm, _ in x['q']]
+                    stale = {'res': 'ok', 'rows': [[den(row[c]) for c in pos] for row in two['d']]}
+                    if stale != two['allowed'][0]:
+                        chk.selftest('answer_of_previous_arrangement_rejected', stale not in two['allowed'])
+                        tested = True
+                        break
+    if not tested:
+        raise tlc.MachineryError('no session suitable for the binding self-test')
+    chk.extra['entry_sessions'] = {'sessions_replayed_each_on_a_reader_of_its_own': total, 'requests': requests,
+                                   'sessions_resending_the_same_fields_rearranged': rearranged}
 
 
 # ------------------------------------------------------------------------------------- code -> spec: random requests
@@ -700,19 +819,37 @@ def views_expected(state):
             'col_slice': cols[0:2]}
 
 
-def run_history(impl, nr, nc, hist):
+SEQUENCES = ('list', 'tuple', 'range')
+
+
+def as_sequence(ix, form):
+    """The 0-based index list as the python Sequence[int] of the given form (an index list is what it holds, whatever
+    spells it): 'range' = the arithmetic progression with these members when there is one, a tuple otherwise."""
+    if form == 'range':
+        if not ix:
+            return range(0)
+        step = ix[1] - ix[0] if len(ix) > 1 else 1
+        if step and all(b - a == step for a, b in zip(ix, ix[1:])):
+            return range(ix[0], ix[-1] + step, step)
+        return tuple(ix)
+    return list(ix) if form == 'list' else tuple(ix)
+
+
+def run_history(impl, nr, nc, hist, form='list'):
     """Replay the calls of one Tabular.tla state on a real table; -> (views, sliced)."""
     from forml.io._input import extract
     table = build_table(impl, nr, nc)
     sliced = None
     for call in hist:
-        ix = [i - 1 for i in call['ix']]
+        ix = as_sequence([i - 1 for i in call['ix']], form)
+        if list(ix) != [i - 1 for i in call['ix']]:
+            raise tlc.MachineryError(f'{ix!r} does not denote {call["ix"]}')
         if call['op'] == 'take_rows':
             table = table.take_rows(ix)
         elif call['op'] == 'take_columns':
             table = table.take_columns(ix)
         elif call['op'] == 'slice':
-            feats, labels = extract.Slicer(ix, [i - 1 for i in call['lx']]).apply(table)
+            feats, labels = extract.Slicer(ix, as_sequence([i - 1 for i in call['lx']], form)).apply(table)
             sliced = {'features': grid(feats), 'labels': grid(labels), 'label': []}
         else:
             feats, label = extract.Slicer(ix, call['l'] - 1).apply(table)
@@ -720,10 +857,12 @@ def run_history(impl, nr, nc, hist):
     return views_of(table), sliced
 
 
-def table_job(impl, nr, nc, hist):
+def table_job(impl, nr, nc, hist, form='list'):
     """One replay of a Tabular.tla state -> everything observed (or the error)."""
     try:
-        seen, sliced = run_history(impl, nr, nc, hist)
+        seen, sliced = run_history(impl, nr, nc, hist, form)
+    except tlc.MachineryError:
+        raise
     except Exception as exc:  # pylint: disable=broad-except
         return {'error': f'{type(exc).__name__}: {exc}'[:200]}
     seen['slicer'] = sliced
@@ -759,21 +898,23 @@ def tabular(chk, tmp):
             # 4th / 3rd state and on one of them or on a frame with row labels of its own (rotating) otherwise
             every = len(state['hist']) <= 1 and not state['sliced']['done'] or n % (4 if state['sliced']['done'] else 3) == 0
             for impl in (CONTAINERS if every else ((CONTAINERS + LABELLED)[(n // 3) % 6],)):
-                jobs.append((n, impl))
-        results = pmap('table_job', [(impl, nr, nc, states[n]['hist']) for n, impl in jobs])
-        for (n, impl), seen in zip(jobs, results):
+                # the index lists are handed over as list / tuple / range (rotating: every state meets every form on some
+                # table when replayed on all three, on one of them otherwise)
+                jobs.append((n, impl, SEQUENCES[(n + len(jobs)) % 3]))
+        results = pmap('table_job', [(impl, nr, nc, states[n]['hist'], form) for n, impl, form in jobs])
+        for (n, impl, form), seen in zip(jobs, results):
             state = states[n]
             want = table_expected(state)
             total += 1
             calls = [(c['op'], c['ix'], c['lx'], c['l']) for c in state['hist']]
             if 'error' in seen:
-                chk.fail(f'{impl} {nr}x{nc} after {calls}: {seen["error"]}',
-                         {'kind': 'tabular', 'impl': impl, 'nr': nr, 'nc': nc, 'state': state})
+                chk.fail(f'{impl} {nr}x{nc} after {calls} (indices as {form}): {seen["error"]}',
+                         {'kind': 'tabular', 'impl': impl, 'nr': nr, 'nc': nc, 'state': state, 'form': form})
                 continue
             bad = [k for k in want if seen.get(k, '?') != want[k]]
             if bad:
-                chk.fail(f'{impl} {nr}x{nc} after {calls}: {bad[0]} = {seen.get(bad[0])} but matrix semantics give {want[bad[0]]}',
-                         {'kind': 'tabular', 'impl': impl, 'nr': nr, 'nc': nc, 'state': state})
+                chk.fail(f'{impl} {nr}x{nc} after {calls} (indices as {form}): {bad[0]} = {seen.get(bad[0])} but matrix semantics '
+                         f'give {want[bad[0]]}', {'kind': 'tabular', 'impl': impl, 'nr': nr, 'nc': nc, 'state': state, 'form': form})
             else:
                 chk.validated()
                 if n % 2999 == 11:
@@ -835,9 +976,35 @@ def replay(chk, path):
         if allowed is None:
             return 1 if plain(got) == plain(rep['observed']) else 0
         return 0 if plain(got) in allowed else 1
+    if rep['kind'] == 'session':
+        q = [tuple(f) for f in rep['q']]
+        reqs = [([tuple(f) for f in r['e']], r['d']) for r in rep['reqs']]
+        outs = serve_session(q, reqs, [tuple(p) for p in rep['plan']], rep['flavour'])
+        print('observed now:', outs)
+        return 0 if all(plain(got) in r['allowed'] for got, r in zip(outs, rep['reqs'])) else 1
+    if rep['kind'] == 'takeindex' and 'want' in rep:
+        import pandas
+        from forml.io import layout
+        rows = [[10 * r + c for c in range(2)] for r in range(3)]
+        table = {'dense-from-rows': lambda: layout.Dense.from_rows(rows),
+                 'dense-from-columns': lambda: layout.Dense.from_columns([list(c) for c in zip(*rows)]),
+                 'frame': lambda: layout.Frame(pandas.DataFrame(rows, columns=['k0', 'k1'])),
+                 'frame-with-row-labels': lambda: layout.Frame(pandas.DataFrame(rows, columns=['k0', 'k1'], index=[2, 0, 1]))}[rep['table']]()
+        seq = {'list': list, 'tuple': tuple}.get(rep['form'], lambda _: range(*rep['range']))(rep['ix'])
+        try:
+            taken = getattr(table, f'take_{rep["axis"]}')(seq)
+            got = {'ok': True, 'rows': [[int(v) for v in r] for r in taken.to_rows()]}
+            if rep['axis'] == 'columns' and not rep['ix']:
+                got['rows'] = rep['want']['rows']
+        except (IndexError, KeyError):
+            got = {'ok': False, 'rows': []}
+        except Exception as exc:  # pylint: disable=broad-except
+            got = {'ok': f'{type(exc).__name__}', 'rows': []}
+        print('observed now:', got)
+        return 0 if got == rep['want'] else 1
     if rep['kind'] == 'tabular':
         state = rep['state']
-        seen = table_job(rep['impl'], rep['nr'], rep['nc'], state['hist'])
+        seen = table_job(rep['impl'], rep['nr'], rep['nc'], state['hist'], rep.get('form', 'list'))
         want = table_expected(state)
         print('observed now:', seen)
         print('matrix semantics:', want)
